@@ -27,7 +27,7 @@ PROPS: dict[str, dict] = {
     "C02": {"modules": ["vf.h_ctrl", "vf.h_worker"], "harnesses": ["ctrl-C02", "worker-wakeup"]},
     "C03": {"modules": ["vf.h_ctrl"], "harnesses": ["ctrl-C03"]},
     "C04": {"modules": ["vf.h_ctrl"], "harnesses": ["ctrl-C04"]},
-    "C17": {"modules": ["vf.h_wire", "vf.h_comms"], "harnesses": ["shm-wire-smt", "frame-sequences"]},
+    "C17": {"modules": ["vf.h_wire", "vf.h_comms", "vf.h_wire2"], "harnesses": ["shm-wire-smt", "frame-sequences", "wire-pickle-json"]},
     "C08": {"modules": ["vf.h_shm"], "harnesses": ["shm-step"]},
     "C09": {"modules": ["vf.h_shm"], "harnesses": ["shm-step-bytes", "shm-evict-liveness"]},
 }
